@@ -291,6 +291,9 @@ impl Crdt for MaxR {
     fn persist(s: &Self::S) -> Option<(Result<String, String>, Option<Self::S>)> {
         Some(json_roundtrip(s))
     }
+    fn persist_op(op: &Self::Op) -> Option<(Result<String, String>, Option<Self::Op>)> {
+        Some(json_roundtrip(op))
+    }
 }
 
 pub struct MinR;
@@ -339,5 +342,8 @@ impl Crdt for MinR {
     }
     fn persist(s: &Self::S) -> Option<(Result<String, String>, Option<Self::S>)> {
         Some(json_roundtrip(s))
+    }
+    fn persist_op(op: &Self::Op) -> Option<(Result<String, String>, Option<Self::Op>)> {
+        Some(json_roundtrip(op))
     }
 }
